@@ -255,7 +255,8 @@ type inst struct {
 	flavour string // map | mapa (non-copying deserializers) | set
 	codec   codec  // the serializers it is constructed with
 	ctl     *codecCtl
-	tok     string // flavour[:codec] as in the request line
+	fctl    *faultCtl // write fault of the store below the instance (`fault`)
+	tok     string    // flavour[:codec] as in the request line
 	store   kvstore.KVStore
 	db      kvstore.KVStore // the database below the view (for `peek`)
 	realm   []byte          // the realm of the view inside db
@@ -383,7 +384,7 @@ func (in *inst) stored() map[string][]byte {
 
 // probe opens one more instance of the same flavour over the same store; it is only read from.
 func (in *inst) probe() *inst {
-	p := &inst{flavour: in.flavour, store: in.store, codec: in.codec, ctl: in.ctl, tok: in.tok}
+	p := &inst{flavour: in.flavour, store: in.store, codec: in.codec, ctl: in.ctl, fctl: in.fctl, tok: in.tok}
 	p.reopen()
 
 	return p
@@ -549,14 +550,23 @@ func classifySetErr(err error) string {
 		return "err-val"
 	case strings.Contains(err.Error(), "failed to serialize key"):
 		return "err-key"
+	case strings.Contains(err.Error(), "failed to set raw key"):
+		return "err-raw"
+	case strings.Contains(err.Error(), "failed to increase size"):
+		return "err-size"
 	}
 
 	return "err"
 }
 
 func classifyKeyErr(err error) string {
-	if strings.Contains(err.Error(), "failed to serialize key") {
+	switch {
+	case strings.Contains(err.Error(), "failed to serialize key"):
 		return "err-key"
+	case strings.Contains(err.Error(), "failed to delete from raw keys store"):
+		return "err-raw"
+	case strings.Contains(err.Error(), "failed to decrease size"):
+		return "err-size"
 	}
 
 	return "err"
@@ -623,11 +633,11 @@ func (ss *session) exec(op string) string {
 		if !fok {
 			return "bad-op"
 		}
-		in := &inst{flavour: fl, codec: cd, ctl: &codecCtl{}, tok: f[2], store: mapdb.NewMapDB(), want: map[string][]byte{}, committed: map[string][]byte{}}
+		in := &inst{flavour: fl, codec: cd, ctl: &codecCtl{}, fctl: &faultCtl{region: -1}, tok: f[2], db: mapdb.NewMapDB(), want: map[string][]byte{}, committed: map[string][]byte{}}
+		in.store = &faultStore{inner: in.db, ctl: in.fctl, region: -1}
 		ss.count("serializer:identifier=" + string(cd.id))
 		ss.count("serializer:key=" + string(cd.key))
 		ss.count("serializer:value=" + string(cd.val))
-		in.db = in.store
 		in.reopen()
 		ss.insts[idx] = in
 
@@ -668,7 +678,8 @@ func (ss *session) exec(op string) string {
 			}
 		}
 		ss.realms[d] = append(ss.realms[d], realm)
-		in := &inst{flavour: fl, codec: cd, ctl: &codecCtl{}, tok: f[2], store: view, db: db, realm: clone(realm), want: map[string][]byte{}, committed: map[string][]byte{}}
+		in := &inst{flavour: fl, codec: cd, ctl: &codecCtl{}, fctl: &faultCtl{region: -1}, tok: f[2], db: db, realm: clone(realm), want: map[string][]byte{}, committed: map[string][]byte{}}
+		in.store = &faultStore{inner: view, ctl: in.fctl, region: -1}
 		ss.count("serializer:identifier=" + string(cd.id))
 		ss.count("serializer:key=" + string(cd.key))
 		ss.count("serializer:value=" + string(cd.val))
@@ -717,9 +728,18 @@ func (ss *session) execOn(in *inst, idx int, f []string) string {
 			exp = "err-val"
 		} else if len(kb) > 0 && kb[0] == 0xEE {
 			exp = "err-key"
+		} else if _, present := in.want[string(kb)]; in.fctl.region == 0 {
+			exp = "err-raw" // the raw-key mirror is written for every Set
+		} else if in.fctl.region == 3 && !present {
+			exp = "err-size" // the size cell is written when the key is new
 		}
 		if check && ans != exp {
 			ss.fail("set-result", f[0], in, fmt.Sprintf("Set answered %s, expected %s (%v)", ans, exp, aerr))
+		}
+		if ans == "err-raw" || ans == "err-size" {
+			// no roll-back: the trie has the entry, the raw keys and / or the size do not — the property is silent from here
+			in.tainted = true
+			ss.count("fault:set-left-half-done")
 		}
 		if ans == "ok" {
 			in.want[string(kb)] = clone(v)
@@ -799,6 +819,9 @@ func (ss *session) execOn(in *inst, idx int, f []string) string {
 			}
 			v[0] = nb[0]
 			ans = classifySetErr(in.m.Set(hkey(kb), v))
+			if ans == "err-raw" || ans == "err-size" {
+				in.tainted, check = true, false
+			}
 			if check && ans != "ok" {
 				ss.fail("set-result", "rmw", in, "Set of a value obtained from Get and modified answered "+ans)
 			}
@@ -870,9 +893,18 @@ func (ss *session) execOn(in *inst, idx int, f []string) string {
 			if len(kb) > 0 && kb[0] == 0xEE {
 				exp = "err-key"
 			}
+			if w && in.fctl.region == 0 && exp != "err-key" {
+				exp = "err-raw"
+			} else if w && in.fctl.region == 3 && exp != "err-key" {
+				exp = "err-size"
+			}
 			if ans != exp {
 				ss.fail("delete-reports-presence", "del", in, fmt.Sprintf("Delete(%x) answered %q, the plain map says %q", kb, ans, exp))
 			}
+		}
+		if ans == "err-raw" || ans == "err-size" {
+			in.tainted = true
+			ss.count("fault:delete-left-half-done")
 		}
 		if err == nil && deleted {
 			delete(in.want, string(kb))
@@ -914,6 +946,26 @@ func (ss *session) execOn(in *inst, idx int, f []string) string {
 		}
 
 		return "stream " + showPairs(ps) + " " + end
+	case "fault":
+		// fault <i> off|root-w|size-w|raw-w: writes of that component of the store below the instance fail
+		if len(f) != 3 {
+			return "bad-op"
+		}
+		switch f[2] {
+		case "off":
+			in.fctl.region = -1
+		case "raw-w":
+			in.fctl.region = 0
+		case "root-w":
+			in.fctl.region = 2
+		case "size-w":
+			in.fctl.region = 3
+		default:
+			return "bad-op"
+		}
+		ss.count("fault:" + f[2])
+
+		return "ok"
 	case "idfail":
 		// idfail <i> enc|dec|both|off: the identifier serializers of the instance (and of the instances opened over
 		// its store from now on) fail
@@ -941,10 +993,11 @@ func (ss *session) execOn(in *inst, idx int, f []string) string {
 			if strings.Contains(err.Error(), "failed to set root") {
 				ans = "err-root"
 			}
-			if check && !(in.ctl.encFail && ans == "err-root") {
+			mustFail := in.ctl.encFail || in.fctl.region == 2
+			if check && !(mustFail && ans == "err-root") {
 				ss.fail("commit-ok", "commit", in, "Commit failed: "+err.Error())
 			}
-			if check && in.ctl.encFail && !in.ctl.decFail {
+			if check && mustFail && !in.ctl.decFail {
 				// a Commit that failed is not a Commit: a new instance over the store reports restored and the
 				// committed root exactly as before it
 				ss.count("commit:failed-identifier-encoder")
@@ -971,8 +1024,8 @@ func (ss *session) execOn(in *inst, idx int, f []string) string {
 
 			return ans
 		}
-		if check && in.ctl.encFail {
-			ss.fail("commit-ok", "commit", in, "Commit succeeded although the identifier does not encode")
+		if check && (in.ctl.encFail || in.fctl.region == 2) {
+			ss.fail("commit-ok", "commit", in, "Commit succeeded although the root could not be stored")
 		}
 		in.commits++
 		in.committed = copyMap(in.want)
@@ -1278,6 +1331,7 @@ type gen struct {
 	vals    []string // value alphabet of a random session
 	dirtyOK bool
 	idfail  bool // the session contains episodes with failing identifier serializers
+	faults  bool // the session contains episodes with write faults of the store
 	// generator-side knowledge, only used to place reopen requests at commit points
 	pending []bool
 }
@@ -1383,9 +1437,28 @@ func (g *gen) idfailEpisode(i int) []string {
 	return []string{fmt.Sprintf("idfail %d both", i), fmt.Sprintf("commit %d", i), fmt.Sprintf("reopen %d", i), fmt.Sprintf("idfail %d off", i)}
 }
 
+// faultEpisode: the root cell cannot be written during a Commit (which must change nothing), or the size cell / the
+// raw-key store cannot be written during Set / Delete (no roll-back: the property is silent about the instance from
+// the first call that failed half way; the model follows the code).
+func (g *gen) faultEpisode(i int) []string {
+	switch g.rng.Intn(3) {
+	case 0:
+		return []string{fmt.Sprintf("fault %d root-w", i), fmt.Sprintf("commit %d", i), fmt.Sprintf("restored %d", i), fmt.Sprintf("peek %d", i), fmt.Sprintf("fault %d off", i)}
+	case 1:
+		return []string{fmt.Sprintf("fault %d size-w", i), g.setOp(i, g.key(), g.val()), g.delOp(i, g.key()), g.setOp(i, g.key(), g.val()), fmt.Sprintf("size %d", i),
+			fmt.Sprintf("peek %d", i), fmt.Sprintf("fault %d off", i), fmt.Sprintf("stream %d 0", i), fmt.Sprintf("root %d", i)}
+	}
+
+	return []string{fmt.Sprintf("fault %d raw-w", i), g.setOp(i, g.key(), g.val()), g.delOp(i, g.key()), g.setOp(i, g.key(), g.val()), fmt.Sprintf("stream %d 0", i),
+		fmt.Sprintf("peek %d", i), fmt.Sprintf("fault %d off", i), fmt.Sprintf("size %d", i), g.readOp(i), fmt.Sprintf("commit %d", i), fmt.Sprintf("reopen %d", i), fmt.Sprintf("stream %d 0", i)}
+}
+
 func (g *gen) randomOp(i int) []string {
 	if g.idfail && g.rng.Chance(1, 12) {
 		return g.idfailEpisode(i)
+	}
+	if g.faults && g.rng.Chance(1, 14) {
+		return g.faultEpisode(i)
 	}
 	switch x := g.rng.Intn(100); {
 	case x < 8 && g.flavour[i] != "set":
@@ -1466,6 +1539,9 @@ func (g *gen) pathTo(i int, target map[string]string) []string {
 		case x < 3 && g.idfail:
 			// a Commit with a failing identifier encoder changes nothing (the history stays clean)
 			ops = append(ops, fmt.Sprintf("idfail %d enc", i), fmt.Sprintf("commit %d", i), fmt.Sprintf("idfail %d off", i))
+		case x < 3 && g.faults:
+			// the same for a root cell that cannot be written
+			ops = append(ops, fmt.Sprintf("fault %d root-w", i), fmt.Sprintf("commit %d", i), fmt.Sprintf("fault %d off", i))
 		case x < 8:
 			g.pending[i] = false
 			ops = append(ops, fmt.Sprintf("commit %d", i))
@@ -1552,6 +1628,7 @@ func genSession(rng *hx.Rng, clusters []mine.Cluster, nOps int) []string {
 	g.pending = make([]bool, nInst)
 	g.dirtyOK = rng.Chance(1, 16)
 	g.idfail = rng.Chance(1, 5)
+	g.faults = rng.Chance(1, 6)
 	var ops []string
 	// 2 of 5 sessions: all instances over realm views of ONE shared database (sibling realms, nested
 	// realms, a realm that is a prefix of another, the bare database next to realms)
@@ -1773,6 +1850,35 @@ func emitCase(r *hx.Run, sub uint64, ops []string) {
 	r.Sample(r.CaseLines())
 }
 
+// observeFailedFlush measures (not judged: third-party code, outside the property's quantifier) what a write fault of
+// the node store during Commit leaves behind: the root cell is already written; smt marks nodes persisted before it
+// writes them, so a later Commit that succeeds may skip nodes that never reached the store.
+func observeFailedFlush() map[string]string {
+	obs := map[string]string{}
+	hx.Safely(func() {
+		db := mapdb.NewMapDB()
+		ctl := &faultCtl{region: -1}
+		st := &faultStore{inner: db, ctl: ctl, region: -1}
+		m := openRawMap(st)
+		_ = m.Set(hkey("a"), hval("1"))
+		_ = m.Set(hkey("b"), hval("2"))
+		ctl.region = 1
+		err := m.Commit()
+		obs["commit_with_failing_node_store"] = fmt.Sprint(err)
+		obs["restored_after_it"] = strconv.FormatBool(openRawMap(st).WasRestoredFromStorage())
+		_, herr := openRawMap(st).Has(hkey("a"))
+		obs["has_on_new_instance_after_it"] = fmt.Sprint(herr)
+		ctl.region = -1
+		obs["second_commit_without_fault"] = fmt.Sprint(m.Commit())
+		p := openRawMap(st)
+		h, herr2 := p.Has(hkey("a"))
+		obs["has_on_new_instance_after_second_commit"] = fmt.Sprintf("%v %v", h, herr2)
+		obs["roots_equal_after_second_commit"] = strconv.FormatBool(p.Root() == m.Root())
+	})
+
+	return obs
+}
+
 func main() {
 	r := hx.Start()
 	r.Rule = "sessions of 2-4 map/set instances (each over its own mapdb, or — 2 of 5 sessions — all over sibling / nested / prefix-related realm views of one shared mapdb) x ~30-60 requests open/set/add/del/get/has/size/stream/commit/reopen/root/restored; " +
@@ -1785,6 +1891,7 @@ func main() {
 
 		return
 	}
+	r.Extra["observation_failed_flush_then_commit"] = observeFailedFlush()
 	clusters := mine.Clusters(24)
 	r.Extra["mined_clusters"] = len(clusters)
 	r.Extra["example_cluster"] = map[string][]string{"share>=16bits": clusters[0].Core, "share12..15bits": clusters[0].Near,
@@ -1828,6 +1935,11 @@ func main() {
 	// a raw key that does not decode ends Stream (kvstore.TypedStore.IterateKeys); everything else still works
 	corpus = append(corpus, []string{"open 0 map", "open 1 set:ipi", "set 0 " + k.Core[0] + " 61", "set 0 bd01 62", "set 0 ff 63", "get 0 bd01", "has 0 bd01", "size 0", "stream 0 0",
 		"stream 0 1", "root 0", "commit 0", "reopen 0", "stream 0 0", "del 0 bd01", "stream 0 0", "add 1 bd01", "add 1 00", "stream 1 0", "has 1 bd01", "peek 1"})
+	// write faults of the store: a Commit that cannot store the root changes nothing; Set / Delete have no roll-back
+	corpus = append(corpus, []string{"open 0 map", "open 1 set", "set 0 " + k.Core[0] + " 61", "commit 0", "set 0 " + k.Core[1] + " 62", "fault 0 root-w", "commit 0", "peek 0", "fault 0 off",
+		"commit 0", "reopen 0", "root 0", "fault 0 size-w", "set 0 " + k.Core[0] + " 63", "set 0 " + k.Core[2] + " 64", "size 0", "has 0 " + k.Core[2], "stream 0 0", "del 0 " + k.Core[1], "size 0", "peek 0",
+		"fault 0 off", "set 0 " + k.Far[0] + " -", "size 0", "root 0", "add 1 " + k.Core[0], "fault 1 raw-w", "add 1 " + k.Core[1], "add 1 " + k.Core[0], "has 1 " + k.Core[1], "size 1", "stream 1 0",
+		"del 1 " + k.Core[0], "has 1 " + k.Core[0], "stream 1 0", "size 1", "fault 1 off", "peek 1", "commit 1", "reopen 1", "stream 1 0", "size 1", "has 1 " + k.Core[1]})
 	for _, c := range corpus {
 		runCase(r, 0, c)
 	}
